@@ -216,7 +216,7 @@ def synthetic(L, tab, rng, n_instr=25):
             elif kind == "i32":
                 v = rng.choice([5, 6, 7, 9, 14, 1]) if rng.random() < 0.8 else ((-rng.randrange(1, 12)) & U32)
             elif nm in ("ARR_LITERAL", "TUPLE_NEW", "STRUCT_LITERAL", "UNION_CONSTRUCT", "CLOSURE_NEW") and kind == "u16":
-                v = rng.choice([0, 1, 2, 3]) if rng.random() < 0.93 else rng.choice([9, 300, 32767, 32768, 65535])
+                v = rng.choice([0, 1, 2, 3]) if rng.random() < 0.93 else rng.choice([9, 300, 32767, 32768, 32769, 65535])
             elif nm in ("STRUCT_GET", "STRUCT_SET", "UNION_FIELD", "TUPLE_GET", "MATCH_TAG", "ENUM_VAL", "LOAD_UPVALUE", "STORE_UPVALUE"):
                 v = rng.choice([0, 1, 2]) if rng.random() < 0.9 else rng.choice([3, 255, 65535])
             elif kind == "u8":
